@@ -3,11 +3,13 @@ PROP = dict(
     gotest="TestC09",
     extra_gotests=[("TestZdec", "Zdec")],
     model="coq/Models/PerpLedger.v (per-field aggregates over stored MTPs, open counter) + coq/Models/PerpBacking.v (per asset amm reserve vs recorded custody: primitive moves with the CheckMinimumCustodyAmt placement as coded, non-atomic MsgClosePositions items, funding distribution value)",
-    coq_deps=["Base/", "Models/SumLedger.v", "Proofs/SumLedgerProofs.v", "Models/PerpLedger.v", "Proofs/PerpLedgerProofs.v", "Run/PerpLedgerRun.v", "Models/PerpBacking.v", "Proofs/PerpBackingProofs.v", "Run/PerpBackingRun.v", "Props/C09.v"],
+    coq_deps=["Base/", "Models/SumLedger.v", "Proofs/SumLedgerProofs.v", "Models/PerpLedger.v", "Proofs/PerpLedgerProofs.v", "Run/PerpLedgerRun.v", "Models/PerpBacking.v", "Proofs/PerpBackingProofs.v", "Run/PerpBackingRun.v",
+              "Models/PerpBackingMulti.v", "Proofs/PerpBackingMultiProofs.v", "Props/C09.v"],
     rule="the shared ledger histories (see C01): perpetual long/short opens with uusdc or uatom collateral, leverage 1.2-10, consolidating re-opens, partial/full closes, "
          "third-party close-positions (liquidate / stop-loss / take-profit), interest and funding settlement over block gaps up to a day, interleaved with swaps, joins/exits and "
-         "oracle price moves; every step's MTP store changes are replayed through the Coq machine and the pool's 12 aggregates + open counter compared; for custody backing every "
-         "step is classified (bank events, perpetual events, MTP store, pool aggregates) into the backing model's units (amm operation + hook check, open / consolidation, user close, "
+         "oracle price moves; two of three histories run on a market with TWO perpetual-enabled oracle pools (uusdc/uatom, uusdc/aweth with 18 decimals at price 2000; the same owners on both, "
+         "batches listing MTPs of both, routes crossing both); every step's MTP store changes are replayed through the Coq machine and the 12 aggregates of EVERY pool (field = 12 * pool + side x asset x kind) + the module's open counter compared; for custody backing every "
+         "step is classified (bank events, perpetual events, MTP store, pool aggregates) PER POOL (one backing machine per perpetual pool) into the backing model's units (amm operation + hook check, open / consolidation, user close, "
          "ClosePositions items) and replayed: the model must accept every transaction the implementation accepted and reproduce reserve, long/short custody, long collateral and short "
          "liabilities of both assets; a directed history drives the pool to reserve = custody + 1000 and the clock to the second at which a long's settlement leaves open interest 0; "
          "reserve >= custody is evaluated on the real state after every tx and block; non-trivial = at least one successful tx",
@@ -21,5 +23,5 @@ PROP = dict(
                "signature C09:custody-not-backed:close-positions-item-aborts-after-interest-transfer), C09_custody_backed_asis covers every history in which no item leaves a transfer behind. "
                "Tied to the code by replaying every step of the generated histories through both machines and diffing aggregates/counter and reserve/custody numbers.",
     level_note="Trusted: Coq kernel+VM; the Go harness. Custody backing: full theorem for the code as it is (atomic ClosePositions items since fix: 85af696), refuted for the code before it.",
-    assumptions=["single perpetual pool (the fixture's oracle pool) with assets uusdc/uatom", "a position's closing custody handed to Repay is non-negative (per-MTP custody non-negative, as in C09_aggregates)", "the pool account holds at least the pool reserve (C01)"],
+    assumptions=["custody backing is stated per perpetual pool (assets = the pool's two denoms); the pools of a market are independent instances of the machine, tied to the code one tracer per pool", "a position's closing custody handed to Repay is non-negative (per-MTP custody non-negative, as in C09_aggregates)", "the pool account holds at least the pool reserve (C01)"],
 )
